@@ -20,6 +20,16 @@ type UpFile struct {
 	Name string `json:"name"` // as listed in the control file
 	Size int    `json:"size"`
 	Seed int    `json:"seed"`
+	// Listed: the size the control file claims, when it differs from the file's real size (a
+	// control file written before the last rebuild); 0 = the real size
+	Listed int `json:"listed,omitempty"`
+}
+
+func (f UpFile) listedSize() int {
+	if f.Listed != 0 {
+		return f.Listed
+	}
+	return f.Size
 }
 
 type UpOp struct {
@@ -99,7 +109,11 @@ func genUploadCase(t *rapid.T) UploadCase {
 			continue
 		}
 		seen[name] = true
-		c.Files = append(c.Files, UpFile{Name: name, Size: rapid.SampledFrom([]int{0, 1, 7, 300, 32767, 32768, 32769, 100000}).Draw(t, "size"), Seed: rapid.IntRange(1, 1<<20).Draw(t, "seed")})
+		uf := UpFile{Name: name, Size: rapid.SampledFrom([]int{0, 1, 7, 300, 32767, 32768, 32769, 100000}).Draw(t, "size"), Seed: rapid.IntRange(1, 1<<20).Draw(t, "seed")}
+		if rapid.IntRange(0, 9).Draw(t, "sizelie") == 0 {
+			uf.Listed = uf.Size + rapid.SampledFrom([]int{1, 100, 4096}).Draw(t, "sizelieBy")
+		}
+		c.Files = append(c.Files, uf)
 	}
 	nops := rapid.SampledFrom([]int{1, 1, 1, 2, 3}).Draw(t, "nops")
 	for i := 0; i < nops; i++ {
@@ -169,7 +183,7 @@ func (c UploadCase) controlText(root string) string {
 	}
 	sb.WriteString("Checksums-Sha256:\n")
 	for _, f := range c.Files {
-		sb.WriteString(fmt.Sprintf(" %064x %d %s\n", f.Seed, f.Size, f.Name))
+		sb.WriteString(fmt.Sprintf(" %064x %d %s\n", f.Seed, f.listedSize(), f.Name))
 	}
 	if c.Layout == "sha256-only" {
 		return sb.String()
@@ -180,9 +194,9 @@ func (c UploadCase) controlText(root string) string {
 			continue
 		}
 		if c.Handle == "dsc" {
-			sb.WriteString(fmt.Sprintf(" %032x %d %s\n", f.Seed, f.Size, f.Name))
+			sb.WriteString(fmt.Sprintf(" %032x %d %s\n", f.Seed, f.listedSize(), f.Name))
 		} else {
-			sb.WriteString(fmt.Sprintf(" %032x %d devel optional %s\n", f.Seed, f.Size, f.Name))
+			sb.WriteString(fmt.Sprintf(" %032x %d devel optional %s\n", f.Seed, f.listedSize(), f.Name))
 		}
 	}
 	return sb.String()
@@ -484,8 +498,8 @@ func checkUploadCase(c UploadCase, r *Recorder) error {
 				}
 				return nil
 			}
-		} else if c.SelfAt > 0 && operr != nil {
-			// a control file that lists itself: refusing is fine - as long as nothing has happened
+		} else if (c.SelfAt > 0 || sizeLie(c)) && operr != nil {
+			// a control file that lists itself, or whose size column is wrong: refusing is fine - as long as nothing has happened
 			if isRegular(ctlInDst) && op.Kind != "remove" && ctlInDstErr != nil {
 				return errf("%s of a control file that lists itself failed (%v) but the control file is in the destination", op.Kind, operr)
 			}
@@ -543,6 +557,15 @@ func checkUploadCase(c UploadCase, r *Recorder) error {
 	return nil
 }
 
+func sizeLie(c UploadCase) bool {
+	for _, f := range c.Files {
+		if f.Listed != 0 {
+			return true
+		}
+	}
+	return false
+}
+
 func upNames(fs []UpFile) []string {
 	out := []string{}
 	for _, f := range fs {
@@ -553,7 +576,7 @@ func upNames(fs []UpFile) []string {
 
 var specC20 = Register(&Spec[UploadCase]{
 	Prop: "C20", Name: "upload",
-	Rule: "histories of 1..3 operations (Copy/Move into d1|d2, Remove) on one .dsc or .changes handle over a fresh scratch tree root/{src,src/sub,d1,d2,outside}; 0..5 referenced files (sizes 0, 1, 7, 300, 32767..32769, 100000; one plain name in twenty is 200..255 bytes long); a quarter of the uploads list adversarial names ('../outside/victim', '../d1/planted', 'sub/x', absolute, '..', '.', '/', '//', '../', 'sub/../../outside/victim') and/or carry a literal 'Filename:' field pointing elsewhere, and a third of those have no Files field at all (Checksums-Sha256 only) or list the adversarial names in Checksums-Sha256 only; in a quarter of the cases both destinations already hold same-named files of the same length with other bytes (leftovers of an earlier upload); in a fifth of the cases d2 is on another file system (/dev/shm, when there is one), where a Move may fail as a whole but must not half-succeed; in a sixth of the cases the destination of the last operation holds a planted symbolic link to root/outside/victim under the name of a referenced file or of the control file; in an eighth the control file lists itself (refusing is fine, but then nothing may have moved and the control file is not in the destination); an operation whose destination is the directory the upload already lives in (also spelled d1/../src/.) must leave that directory bit-identical whatever it returns; the last operation optionally runs with ONE planted fault at step i in {file 0..n-1, control file}: source deleted, source replaced by a non-empty directory, a non-empty directory squatting on the destination name, destination directory missing or a regular file. Oracle: success (plain names, no fault) => all files and the control file byte-identical in the destination (Move: gone from source; Remove: gone), handle.Filename == dest/base; fault => an error, no regular control file in the destination, for Move/Remove the control file intact at its source; always => root/outside bit-identical, no destination file carries outside content, d1/planted untouched when d1 is not involved. Non-trivial: >= 2 files with a fault at step >= 1, or non-plain names; distinct by case.",
+	Rule: "histories of 1..3 operations (Copy/Move into d1|d2, Remove) on one .dsc or .changes handle over a fresh scratch tree root/{src,src/sub,d1,d2,outside}; 0..5 referenced files (sizes 0, 1, 7, 300, 32767..32769, 100000; one plain name in twenty is 200..255 bytes long; one file in ten is listed with a size that is not its real one - the hashes are made up anyway, nothing in the statement makes Copy/Move verify either); a quarter of the uploads list adversarial names ('../outside/victim', '../d1/planted', 'sub/x', absolute, '..', '.', '/', '//', '../', 'sub/../../outside/victim') and/or carry a literal 'Filename:' field pointing elsewhere, and a third of those have no Files field at all (Checksums-Sha256 only) or list the adversarial names in Checksums-Sha256 only; in a quarter of the cases both destinations already hold same-named files of the same length with other bytes (leftovers of an earlier upload); in a fifth of the cases d2 is on another file system (/dev/shm, when there is one), where a Move may fail as a whole but must not half-succeed; in a sixth of the cases the destination of the last operation holds a planted symbolic link to root/outside/victim under the name of a referenced file or of the control file; in an eighth the control file lists itself (refusing is fine, but then nothing may have moved and the control file is not in the destination); an operation whose destination is the directory the upload already lives in (also spelled d1/../src/.) must leave that directory bit-identical whatever it returns; the last operation optionally runs with ONE planted fault at step i in {file 0..n-1, control file}: source deleted, source replaced by a non-empty directory, a non-empty directory squatting on the destination name, destination directory missing or a regular file. Oracle: success (plain names, no fault) => all files and the control file byte-identical in the destination (Move: gone from source; Remove: gone), handle.Filename == dest/base; fault => an error, no regular control file in the destination, for Move/Remove the control file intact at its source; always => root/outside bit-identical, no destination file carries outside content, d1/planted untouched when d1 is not involved. Non-trivial: >= 2 files with a fault at step >= 1, or non-plain names; distinct by case.",
 	Check: checkUploadCase,
 })
 
